@@ -57,7 +57,7 @@ func verifDumpTo(sb *strings.Builder, n node) {
 	case *objectVal:
 		sb.WriteString("(obj")
 		for _, a := range tn.Attrs {
-			fmt.Fprintf(sb, " (%x ", []byte(a.Name))
+			fmt.Fprintf(sb, " (%s ", verifHex([]byte(a.Name)))
 			verifDumpTo(sb, a.Value)
 			sb.WriteString(")")
 		}
@@ -78,7 +78,7 @@ func verifDumpTo(sb *strings.Builder, n node) {
 	case *numberVal:
 		fmt.Fprintf(sb, "(num %s)", tn.Value.Text('f', -1))
 	case *stringVal:
-		fmt.Fprintf(sb, "(str %x)", []byte(tn.Value))
+		fmt.Fprintf(sb, "(str %s)", verifHex([]byte(tn.Value)))
 	case *nullVal:
 		sb.WriteString("null")
 	case invalidVal:
@@ -88,4 +88,11 @@ func verifDumpTo(sb *strings.Builder, n node) {
 	default:
 		fmt.Fprintf(sb, "(unknown %T)", n)
 	}
+}
+
+func verifHex(b []byte) string {
+	if len(b) == 0 {
+		return "-"
+	}
+	return fmt.Sprintf("%x", b)
 }
